@@ -1152,3 +1152,52 @@ func ruleREF7(p *Program) *RuleResult {
 	r.floor("pairs", 100)
 	return r
 }
+
+// ---------- REF8: LiteralInfo and Identity are immutable ----------
+
+// Fields of *LiteralInfo / *Identity / *CanonicalIdentity are written only on
+// objects allocated in the writing function or returned fresh by the callee
+// that built them: no method updates its receiver or an object handed in, so a
+// parsed or derived value never changes after the fact (format(parse(x)) cannot
+// depend on call history).
+func ruleREF8(p *Program) *RuleResult {
+	r := newResult("REF8")
+	fr := newFreshness(p)
+	immutable := map[string]bool{"LiteralInfo": true, "Identity": true, "CanonicalIdentity": true}
+	for _, fn := range p.RepoFuncs() {
+		if len(fn.Blocks) == 0 {
+			continue
+		}
+		for _, b := range fn.Blocks {
+			for _, ins := range b.Instrs {
+				st, ok := ins.(*ssa.Store)
+				if !ok {
+					continue
+				}
+				fa, ok := st.Addr.(*ssa.FieldAddr)
+				if !ok {
+					continue
+				}
+				pt, ok := fa.X.Type().(*types.Pointer)
+				if !ok {
+					continue
+				}
+				n := namedName(pt.Elem())
+				pk := namedPkgPath(pt.Elem())
+				if !immutable[n] || !(strings.HasSuffix(pk, "/internal/element/reference") || strings.HasSuffix(pk, "/internal/resource")) {
+					continue
+				}
+				r.count("field_stores", 1)
+				key := short(fn) + "|" + n + "." + fieldName(fa)
+				if fr.isFresh(fa.X) {
+					r.ok(key, "field of a "+n+" built in this function (or returned fresh by its constructor) is initialised", p.instrPos(ins), "freshness of the written object", true)
+				} else {
+					r.bad(key, short(fn)+" writes "+n+"."+fieldName(fa)+" of an object it did not build ("+fr.reason(fa.X)+")", p.instrPos(ins),
+						n+" is documented immutable: a value updated in place (cache, lazily filled field) makes formatting and comparison depend on earlier calls and leaks through shallow copies")
+				}
+			}
+		}
+	}
+	r.floor("field_stores", 8)
+	return r
+}
